@@ -37,6 +37,7 @@ type AOp struct {
 // model side, the structural coarse class on the observed side).
 type AOut struct {
 	Submit string `json:"submit"`
+	Exec   string `json:"exec"` // text whose operation was executed ("-": none)
 	Class  string `json:"class"`
 	Ops    []AOp  `json:"ops"`
 }
@@ -183,9 +184,20 @@ func newConc(rnd *rand.Rand, texts, valid []string, wrong []string, method strin
 		case w == "x:empty":
 			s = ""
 		default:
-			switch rnd.Intn(6) {
+			// (an upper-case spelling of a correct digest is NOT used as a wrong
+			// hash: it denotes the same SHA-256 value, and whether a server
+			// treats it as equal is outside C15)
+			t0 := c.Text[texts[0]]
+			k := rnd.Intn(6)
+			if strings.TrimSpace(t0) != t0 && rnd.Intn(2) == 0 {
+				k = 6
+			}
+			switch k {
+			case 6:
+				// near miss: the hash of the first text without its outer whitespace
+				s = sha(strings.TrimSpace(t0))
 			case 0:
-				s = strings.ToUpper(first)
+				s = sha(t0 + " ")
 			case 1:
 				s = first + " "
 			case 2:
@@ -359,12 +371,17 @@ func (c *conc) wire(r AReq) wire {
 
 // seen is the abstraction of what the server did with one request.
 type seen struct {
-	Out   AOut   `json:"out"`
-	State AState `json:"state"`
-	Fine  string `json:"fine"`   // class read from the error message / code (informative)
-	Code  string `json:"code"`   // extensions.code of the first error
-	Msg   string `json:"msg"`    // message of the first error
-	HTTP  int    `json:"status"` // HTTP status
+	Out     AOut     `json:"out"`
+	Pre     AState   `json:"state_before"`
+	State   AState   `json:"state"`
+	Chg     bool     `json:"changed_cache"` // one of this request's cache operations changed the contents
+	BoundOK bool     `json:"bound_ok"`      // real sha256(value) == key for every entry of the real cache
+	BoundEx string   `json:"bound_counterexample,omitempty"`
+	Fine    string   `json:"fine"`            // class read from the error message / code (informative)
+	Code    string   `json:"code"`            // extensions.code of the first error
+	Msg     string   `json:"msg"`             // message of the first error
+	HTTP    int      `json:"status"`          // HTTP status
+	Notes   []string `json:"notes,omitempty"` // implementation-level oddities (RawQuery label, ...)
 }
 
 type gqlResp struct {
@@ -375,20 +392,38 @@ type gqlResp struct {
 	} `json:"errors"`
 }
 
-// abstract turns the reply + in-server observation + cache content into
-// Apq's alphabet. Anything that fits no class becomes "inconsistent:...",
-// which no specification outcome equals.
-func (c *conc) abstract(kind string, capacity int, rp *reply, o *obs, snap *snapshot) seen {
-	var s seen
-	s.HTTP = rp.Status
-	s.State = AState{Kind: kind, Cap: capacity}
+func (c *conc) absState(kind string, capacity int, snap *snapshot) AState {
+	st := AState{Kind: kind, Cap: capacity}
 	for _, e := range snap.Ents {
-		s.State.Ents = append(s.State.Ents, [2]string{c.absHash(e.Key), c.absText(e.Val)})
+		st.Ents = append(st.Ents, [2]string{c.absHash(e.Key), c.absText(e.Val)})
 	}
 	for _, k := range snap.Order {
-		s.State.Order = append(s.State.Order, c.absHash(k))
+		st.Order = append(st.Order, c.absHash(k))
 	}
-	s.State.norm()
+	st.norm()
+	return st
+}
+
+// abstract turns the reply + in-server observation + cache contents before
+// and after into Apq's alphabet.
+//
+//	submit: text seen by the mutator placed after the APQ extension ("-": not reached)
+//	exec:   text identified by the root fields in the response data of an
+//	        execution that really happened ("-": nothing executed)
+//	class:  data | postreject | notfound | apqreject | decode | odd:<what>
+func (c *conc) abstract(kind string, capacity int, rp *reply, o *obs, pre, snap *snapshot) seen {
+	var s seen
+	s.HTTP = rp.Status
+	s.Pre = c.absState(kind, capacity, pre)
+	s.State = c.absState(kind, capacity, snap)
+	s.BoundOK = true
+	for _, e := range snap.Ents {
+		if !strings.EqualFold(sha(e.Val), e.Key) {
+			s.BoundOK = false
+			s.BoundEx = fmt.Sprintf("cache binds hash %q to text %q whose SHA-256 is %s", e.Key, e.Val, sha(e.Val))
+			break
+		}
+	}
 	s.Out.Ops = []AOp{}
 	for _, op := range o.Ops {
 		a := AOp{Op: op.Op, H: c.absHash(op.Key)}
@@ -398,14 +433,17 @@ func (c *conc) abstract(kind string, capacity int, rp *reply, o *obs, snap *snap
 			a.T = c.absText(op.Val)
 		}
 		s.Out.Ops = append(s.Out.Ops, a)
+		if op.Chg {
+			s.Chg = true
+		}
 	}
-	s.Out.Submit = none
+	s.Out.Submit, s.Out.Exec = none, none
 	if o.Submit != nil {
 		s.Out.Submit = c.absText(*o.Submit)
 	}
 	var g gqlResp
 	if err := json.Unmarshal([]byte(rp.Body), &g); err != nil {
-		s.Out.Class = "inconsistent:response body is not JSON: " + rp.Body
+		s.Out.Class = "odd:response body is not JSON"
 		return s
 	}
 	hasData := len(g.Data) > 0 && string(g.Data) != "null"
@@ -435,39 +473,40 @@ func (c *conc) abstract(kind string, capacity int, rp *reply, o *obs, snap *snap
 	default:
 		s.Fine = "other"
 	}
-	bad := func(f string, a ...any) { s.Out.Class = "inconsistent:" + fmt.Sprintf(f, a...) }
-	switch {
-	case len(o.Execs) > 0:
-		// something was executed: it must be exactly the submitted text, once, and
-		// the data must name the fields of that text
-		if o.Submit == nil || len(o.Execs) != 1 || o.Execs[0] != *o.Submit {
-			bad("executed %q but the text after the extension was %v", o.Execs, s.Out.Submit)
-			return s
-		}
-		if len(g.Errors) > 0 || !hasData {
-			bad("executed %q but the response is %s", o.Execs, rp.Body)
-			return s
-		}
-		if f, ok := c.Field[s.Out.Submit]; ok {
-			var d map[string]string
-			if json.Unmarshal(g.Data, &d) != nil || len(d) != 1 || d[f] != "v-"+f {
-				bad("executed text %s but the data is %s", s.Out.Submit, g.Data)
-				return s
+	if len(o.Execs) > 0 {
+		// Something was executed. WHICH operation is read off the data (the mock
+		// resolves exactly the root fields of the parsed operation).
+		var d map[string]string
+		s.Out.Exec = "?exec:" + string(g.Data)
+		if json.Unmarshal(g.Data, &d) == nil && len(d) == 1 {
+			for t, f := range c.Field {
+				if d[f] == "v-"+f {
+					s.Out.Exec = t
+				}
 			}
 		}
-		s.Out.Class = "data"
-	case hasData:
-		bad("data %s without any execution", g.Data)
-	case len(g.Errors) == 0:
-		bad("neither data nor errors: %s", rp.Body)
-	case !o.Pre:
-		if o.Submit != nil {
-			bad("mutator after the extension ran without the one before it")
+		if len(o.Execs) != 1 {
+			s.Notes = append(s.Notes, fmt.Sprintf("%d executions for one request", len(o.Execs)))
+		}
+		if o.Submit != nil && o.Execs[0] != *o.Submit {
+			s.Notes = append(s.Notes, fmt.Sprintf("OperationContext.RawQuery %q is not the text handed to the executor", o.Execs[0]))
+		}
+		if len(g.Errors) > 0 || !hasData {
+			s.Out.Class = "odd:executed but the response carries errors or no data"
 			return s
 		}
-		s.Out.Class = "decode"
+		s.Out.Class = "data"
+		return s
+	}
+	switch {
+	case hasData:
+		s.Out.Class = "odd:data without any execution"
+	case len(g.Errors) == 0:
+		s.Out.Class = "odd:neither data nor errors"
 	case o.Submit != nil:
 		s.Out.Class = "postreject"
+	case !o.Pre:
+		s.Out.Class = "decode"
 	case s.Msg == "PersistedQueryNotFound":
 		s.Out.Class = "notfound"
 	default:
@@ -477,7 +516,7 @@ func (c *conc) abstract(kind string, capacity int, rp *reply, o *obs, snap *snap
 }
 
 // diff lists the fields in which an observation differs from the
-// specification's outcome and successor state.
+// IMPLEMENTATION-level outcome and successor state (drift, not a verdict).
 func diff(want AOut, wantT AState, got seen) []string {
 	var d []string
 	if coarse(want.Class) != got.Out.Class {
@@ -485,6 +524,9 @@ func diff(want AOut, wantT AState, got seen) []string {
 	}
 	if want.Submit != got.Out.Submit {
 		d = append(d, "submit")
+	}
+	if want.Exec != got.Out.Exec {
+		d = append(d, "exec")
 	}
 	wo, _ := json.Marshal(normOps(want.Ops))
 	gotOps, _ := json.Marshal(normOps(got.Out.Ops))
@@ -501,6 +543,9 @@ func diff(want AOut, wantT AState, got seen) []string {
 	gr, _ := json.Marshal(got.State.Order)
 	if string(wr) != string(gr) {
 		d = append(d, "order")
+	}
+	if len(got.Notes) > 0 {
+		d = append(d, "rawquery")
 	}
 	return d
 }
